@@ -98,10 +98,15 @@ class IpCase:
     def responder(self, conn, req):
         if conn.secure and req["target"].startswith("/characteristics") and self.reply is not None:
             code, doc = self.reply
-            if doc is None:
-                conn.send(conn.http(code))
-            else:
-                conn.send(conn.http(code, json.dumps(doc, separators=(",", ":")).encode(), "application/hap+json"))
+            wire = conn.http(code) if doc is None else conn.http(code, json.dumps(doc, separators=(",", ":")).encode(), "application/hap+json")
+            if getattr(self, "slow_reply", 0):
+                # the accessory takes a moment: the operation is IN FLIGHT meanwhile
+                async def later(delay=self.slow_reply):
+                    await asyncio.sleep(delay)
+                    conn.send(wire)
+
+                return later()
+            conn.send(wire)
             return True
         return False
 
@@ -161,11 +166,36 @@ class IpCase:
             else:
                 ctx.count("malformed_entries_skipped")
         failed_call = None
+        # how the caller hands the writes over: its list; a one-shot iterable (the parameter is an Iterable); or a list it
+        # re-uses while the operation is in flight - during which another consumer also starts listening
+        import zlib
+
+        variant = zlib.crc32(repr((writes, code, doc)).encode()) % 4
+        late_notifications = None
         try:
-            res = await asyncio.wait_for(self.w.pairing.put_characteristics(writes), 60)
+            if variant == 1:
+                self.ctx.count("writes_handed_over_as_one_shot_iterables")
+                res = await asyncio.wait_for(self.w.pairing.put_characteristics(w_ for w_ in list(writes)), 60)
+            elif variant == 2:
+                self.ctx.count("writes_with_caller_list_reused_in_flight")
+                mine = list(writes)
+                self.slow_reply = 0.2
+                task = asyncio.ensure_future(self.w.pairing.put_characteristics(mine))
+                await asyncio.sleep(0.05)
+                mine[:] = [(a, i, "other") for a, i, _ in reversed(mine)][:1]
+                late_notifications = []
+                remove_late = self.w.pairing.dispatcher_connect(lambda ev: late_notifications.append(ev) if ev else None)
+                try:
+                    res = await asyncio.wait_for(task, 60)
+                finally:
+                    self.slow_reply = 0
+                    remove_late()
+            else:
+                res = await asyncio.wait_for(self.w.pairing.put_characteristics(writes), 60)
         except Exception as ex:  # noqa: BLE001
             failed_call = ex
             res = None
+            self.slow_reply = 0
         if statusless:
             ctx.count("statusless_entries_recorded")
             return
@@ -211,6 +241,14 @@ class IpCase:
             if k in notified:
                 ctx.violation("rejected-write-notified", f"accessory rejected {k}; listeners saw {notified[k]!r}", replay)
                 return
+        if late_notifications is not None:
+            late = {}
+            for ev in late_notifications:
+                late.update(ev)
+            if late != notified:
+                ctx.violation("accepted-write-not-notified", f"a consumer that started listening while the write was in flight saw {late!r}; the consumer registered before saw {notified!r} (reply {code} {doc!r})", replay)
+                return
+            ctx.count("late_listeners_checked")
 
 
 async def write_unconfirmed(case, writes, code, replay) -> None:
@@ -262,6 +300,53 @@ def write_replies(writes, vec):
         yield 207, {"characteristics": only_fail}, only_fail
 
 
+async def first_listener_in_flight(ctx, k: int) -> None:
+    """Nobody listens when the write starts; the first consumer registers while it is in flight. Whoever listens when the
+    accessory's acceptance arrives is told the accepted readable values."""
+    from vf import simnet
+
+    rng = ctx.grng("C13.ip.first-listener", k)
+    w = simnet.World(rng)
+    writes = [(1, 9, bool(k % 2)), (1, 10, 10 + k)][: 1 + k % 2]
+    writes = [w_ for w_ in writes if "pw" in PERMS.get((w_[0], w_[1]), "")]
+    ctx.case("ip-first-listener", k, sample={"transport": "ip", "op": "write", "writes": writes, "listeners_at_start": 0}, kind="ip-first-listener")
+    if not writes:
+        return
+
+    def responder(conn, req):
+        if conn.secure and req["target"].startswith("/characteristics") and req["method"] == "PUT":
+            async def later():
+                await asyncio.sleep(0.2)
+                conn.send(conn.http(204))
+
+            return later()
+        return False
+
+    w.accessory.script_for = lambda host, attempt: simnet.ConnScript(responder=responder)
+    try:
+        await asyncio.wait_for(w.connection.ensure_connection(), 30)
+        await w.pairing.list_accessories_and_characteristics()
+        task = asyncio.ensure_future(w.pairing.put_characteristics(writes))
+        await asyncio.sleep(0.05)
+        seen = []
+        w.pairing.dispatcher_connect(lambda ev: seen.append(ev) if ev else None)
+        try:
+            res = await asyncio.wait_for(task, 60)
+        except Exception as ex:  # noqa: BLE001
+            ctx.violation(f"write-raises-{type(ex).__name__}", f"put_characteristics({writes}) answered 204: {ex!r}", {"t": "ip", "op": "first-listener", "k": k})
+            return
+        notified = {}
+        for ev in seen:
+            notified.update(ev)
+        want = {(a, i): {"value": v} for a, i, v in writes if "pr" in PERMS.get((a, i), "")}
+        if res or notified != want:
+            ctx.violation("accepted-write-not-notified", f"no listener when the write started, one registered while it was in flight; accessory accepted {writes} (204); result {res!r}, that listener saw {notified!r}", {"t": "ip", "op": "first-listener", "k": k})
+            return
+        ctx.count("first_listeners_in_flight_checked")
+    finally:
+        await w.close()
+
+
 async def ip_part(ctx) -> None:
     from vf import simnet
 
@@ -291,6 +376,10 @@ async def ip_part(ctx) -> None:
                         ctx.case("ip-write", tuple(writes), json.dumps(doc, sort_keys=True), nontrivial=any(wvec),
                                  sample={"transport": "ip", "op": "write", "writes": writes, "reply_code": code, "reply": doc}, kind="ip-write")
                         await case.write(writes, code, doc, script, {"t": "ip", "op": "write", "writes": writes, "code": code, "doc": json.dumps(doc)})
+        for k in range(6):
+            idx += 1
+            if ctx.mine(idx):
+                await first_listener_in_flight(ctx, k)
         for k, code in enumerate((500, 503, 207, 200, 202, 500, 207)):
             idx += 1
             if not ctx.mine(idx):
@@ -388,6 +477,9 @@ def replay(ctx, d) -> None:
             await asyncio.wait_for(w.connection.ensure_connection(), 30)
             await w.pairing.list_accessories_and_characteristics()
             ctx.case("replay")
+            if d["op"] == "first-listener":
+                await first_listener_in_flight(ctx, d["k"])
+                return
             if d["op"] == "write-unconfirmed":
                 await write_unconfirmed(case, [tuple(x) for x in d["writes"]], d["code"], d)
                 return
